@@ -395,3 +395,20 @@ func vh_routing_key_value_count() {
 	}
 	vObserve("ok", err == nil)
 }
+
+// "the cache never exceeds its configured size": the size the session's caches are BUILT with, through the
+// real constructor (Session.init, which dials the cluster, is a stub: nothing after construction matters).
+func vstubSessionInit(s *Session) error { return nil }
+
+func vh_new_session_cache_sizes() {
+	cfg := NewCluster("10.0.0.1")
+	cfg.MaxPreparedStmts = 1 + vChoose("max_prepared", 3)
+	cfg.MaxRoutingKeyInfo = 1 + vChoose("max_routing", 3)
+	s, err := NewSession(*cfg)
+	vAssert(err == nil && s != nil, "C14/session/constructed")
+	if s == nil {
+		return
+	}
+	vAssert(s.stmtsLRU != nil && s.stmtsLRU.lru != nil && s.stmtsLRU.lru.MaxEntries == cfg.MaxPreparedStmts, "C14/session/prepared-cache-has-the-configured-size")
+	vAssert(s.routingKeyInfoCache.lru != nil && s.routingKeyInfoCache.lru.MaxEntries == cfg.MaxRoutingKeyInfo, "C14/session/routing-info-cache-has-the-configured-size")
+}
